@@ -61,7 +61,10 @@ Record gov_shape := {
   (* the body is exactly: look the key up; if found return the STORED field; else return the default —
      no other return, i.e. no stored value (0 included) is ever replaced by the default *)
   sh_quorum_default_only_absent : bool;
-  sh_period_default_only_absent : bool }.
+  sh_period_default_only_absent : bool;
+  (* --- EndBlocker, the ErrEncoding branches (undecodable proposal record) --- *)
+  sh_bad_inactive_dequeued : bool;        (* InactiveProposalsQueue.Remove(ctx, key) with the walk's key *)
+  sh_bad_active_dequeued_by_key : bool    (* ActiveProposalsQueue.Remove(ctx, key) rather than by the zero record's VotingEndTime *) }.
 
 (* ------------------------------------------------------------------ the shape M_Gov transcribes *)
 Definition model_eb_order : list eb_step := [EB_Tally; EB_Payout; EB_Dequeue; EB_Outcome; EB_SetTally; EB_Save].
